@@ -135,6 +135,17 @@ theorem correct_matrixOf (s : View ν α) (r c : ν) (ih : s.WF → Correct s)
       pair_of_length_two (by omega : idx.length = 2)]
     rw [hs.get_eq hl' hbd]
 
+theorem correct_tmap (s : View ν α) (ih : s.WF → Correct s) (hw : (View.tmap s).WF) :
+    Correct (View.tmap s) := by
+  simp only [View.WF] at hw
+  have hs := ih hw
+  refine ⟨by simpa [View.shape] using hs.1, ?_⟩
+  intro idx hl hbd
+  simp only [View.shape] at hl
+  simp only [View.get, View.specGet, View.shape, View.specCell]
+  rw [hs.get_eq hl hbd]
+  rfl
+
 theorem correct_range (s : View ν α) (rs : List IndexRange) (ih : s.WF → Correct s)
     (hw : (View.range s rs).WF) : Correct (View.range s rs) := by
   simp only [View.WF] at hw
@@ -415,6 +426,7 @@ theorem View.correct (v : View ν α) : v.WF → Correct v := by
   | tensor id t => exact correct_tensor id t
   | matrix id m r c => exact correct_matrix id m r c
   | matrixOf s r c ih => exact correct_matrixOf s r c ih
+  | tmap s ih => exact correct_tmap s ih
   | range s rs ih => exact correct_range s rs ih
   | mask s ms ih => exact correct_mask s ms ih
   | index s p ih => exact correct_index s p ih
